@@ -247,6 +247,32 @@ fn check_point(sc: &Scenario, pt: &Point, stats: &mut crate::world::Stats, valid
                 Resp::Ok(v) => crate::world::hex_u64(&v).unwrap_or(0),
                 _ => 0,
             };
+            // a sample dies a second time, inside the repairing reorg itself, and is reopened again
+            if pt.k % 5 == 1 {
+                let j = (pt.k / 5) % 9;
+                let hits2 = Rc::new(RefCell::new(0usize));
+                let h3 = hits2.clone();
+                brc20_prog::verif::set_failpoint(Some(Box::new(move |_site| {
+                    let mut h = h3.borrow_mut();
+                    let n = *h;
+                    *h += 1;
+                    if n >= j {
+                        Err("verif: injected process death (second)".to_string())
+                    } else {
+                        Ok(())
+                    }
+                })));
+                let r = b.inst.call("brc20_reorg", json!({"latest_valid_block_number": hi}));
+                brc20_prog::verif::set_failpoint(None);
+                if let Resp::Panic(p) = &r {
+                    return Some(Violation::new(format!("repairing-reorg-panicked-on-write-error/{inside}/{}", pt.site), detail(json!({"reorg_to": hi, "second_crash_at_write": j, "panic": p}))));
+                }
+                b.inst.close();
+                if let Err(e) = b.inst.reopen() {
+                    return Some(Violation::new(format!("cannot-reopen-after-second-crash/{inside}/{}", pt.site), detail(json!({"reorg_to": hi, "second_crash_at_write": j, "error": e}))));
+                }
+                stats.bump(if *hits2.borrow() > j { "second_crash_inside_repairing_reorg" } else { "second_crash_after_repairing_reorg" });
+            }
             for (n, h) in hs.iter().enumerate() {
                 let r = b.inst.call("brc20_reorg", json!({"latest_valid_block_number": h}));
                 match &r {
@@ -344,7 +370,7 @@ impl Prop for C04 {
         v
     }
     fn rule(&self) -> String {
-        "case = one seeded history (commit every 1-3 blocks, reorgs, restarts) + a set of crash points. A first fault-free pass counts every persistent write (failpoint before each RocksDB put/delete/flush of commitToDatabase, reorg and block finalisation); then for each selected (op, write index) the history is re-executed on a fresh directory, the process 'dies' at that write (it and every later write fail, the instance is dropped) and the directory is reopened. Oracle: crash in finalisation => obs == fresh replay to the last commit; crash in commit/reorg => brc20_reorg(H) for H = min(last committed height, reorg target in progress) (plus a deeper H for a sample) must be accepted and obs == fresh replay to H, a sample is then extended by 2 blocks on both sides. quick: table boundaries + first/last write of every op + the 2nd/3rd write of every run of same-kind writes + random fill up to 60 points per history; thorough: every write index. evaluations = crash images checked is reported in events; distinct = sha256 of op list; non-trivial = at least one image inside a commit or reorg was repaired and compared".into()
+        "case = one seeded history (commit every 1-3 blocks, reorgs, restarts) + a set of crash points. A first fault-free pass counts every persistent write (failpoint before each RocksDB put/delete/flush of commitToDatabase, reorg and block finalisation); then for each selected (op, write index) the history is re-executed on a fresh directory, the process 'dies' at that write (it and every later write fail, the instance is dropped) and the directory is reopened. Oracle: crash in finalisation => obs == fresh replay to the last commit; crash in commit/reorg => brc20_reorg(H) for H = min(last committed height, reorg target in progress) (plus a deeper H for a sample) must be accepted and obs == fresh replay to H, a sample is then extended by 2 blocks on both sides; every fifth image dies a second time at write 0-8 of the repairing reorg and is reopened before the repair is attempted again. quick: table boundaries + first/last write of every op + the 2nd/3rd write of every run of same-kind writes + random fill up to 60 points per history; thorough: every write index. evaluations = crash images checked is reported in events; distinct = sha256 of op list; non-trivial = at least one image inside a commit or reorg was repaired and compared".into()
     }
     fn assumptions(&self) -> Vec<String> {
         vec![
